@@ -283,10 +283,6 @@ func IsParagraph
 func (*BaseBlock).Lines
   ensures result != nil
   modifies b.lines
-@*/
-
-/* Draft, NOT loaded by gvc (the loop invariant is not discharged yet, so no caller may rely on it):
-
 // RemoveChildren(self): every child becomes isolated; nothing else changes.
 func (*BaseNode).RemoveChildren
   uses nodeModel
@@ -298,7 +294,8 @@ func (*BaseNode).RemoveChildren
   modifies n.childCount, n.firstChild, n.lastChild, all(BaseNode.parent), all(BaseNode.next), all(BaseNode.prev)
   loop 0 inv c == nil || (old(par(c)) == self && 0 <= kidx(c) && kidx(c) < klen(self) && kid(self, kidx(c)) == c)
   loop 0 inv forall i int {kid(self, i)} :: (0 <= i && i < klen(self) && (c == nil || i < kidx(c))) ==> (par(kid(self, i)) == nil && nxt(kid(self, i)) == nil && prv(kid(self, i)) == nil)
-  loop 0 inv forall i int {kid(self, i)} :: (0 <= i && i < klen(self) && c != nil && i >= kidx(c)) ==> (par(kid(self, i)) == self && nxt(kid(self, i)) == old(nxt(kid(self, i))) && prv(kid(self, i)) == (i == kidx(c) ? nil : old(prv(kid(self, i)))))
+  loop 0 inv forall i int {kid(self, i)} :: (0 <= i && i < klen(self) && c != nil && i >= kidx(c)) ==> (par(kid(self, i)) == self && nxt(kid(self, i)) == old(nxt(kid(self, i))) && prv(kid(self, i)) == old(prv(kid(self, i))))
   loop 0 inv forall w addr {par(w)} :: old(par(w)) != self ==> (par(w) == old(par(w)) && nxt(w) == old(nxt(w)) && prv(w) == old(prv(w)))
   loop 0 inv n.childCount == old(n.childCount) && n.firstChild == old(n.firstChild) && n.lastChild == old(n.lastChild)
+  loop 0 dec (c == nil ? 0 : klen(self) - kidx(c))
 @*/
